@@ -340,3 +340,31 @@ func (t *Type) FixKeys() *Type {
 	}
 	return n
 }
+
+// CanonVars renames variables to v0, v1, ... in order of first occurrence.
+func (t *Type) CanonVars() *Type {
+	names := map[string]string{}
+	var ren func(x *Type) *Type
+	ren = func(x *Type) *Type {
+		switch x.K {
+		case TVar:
+			n, ok := names[x.N]
+			if !ok {
+				n = "v" + string(rune('0'+len(names)))
+				names[x.N] = n
+			}
+			return Var(n)
+		case TNum, TStr, TBool, TTime, TBot, TTop:
+			return x
+		}
+		n := &Type{K: x.K, N: x.N}
+		for _, a := range x.A {
+			n.A = append(n.A, ren(a))
+		}
+		for _, f := range x.F {
+			n.F = append(n.F, Field{f.Name, ren(f.T)})
+		}
+		return n
+	}
+	return ren(t)
+}
